@@ -314,6 +314,92 @@ class LLAdapter(Adapter):
                 'grad': np.asarray(g)[mask]}
 
 
+class SharedLLAdapter(LLAdapter):
+    """the likelihood is built from ingredients the caller keeps using: reduced wrappers (some with a
+    parameter fixed beforehand — that fix is the first call of the history) handed to a SIBLING likelihood as
+    well; between the calls of the history the sibling and the ingredients are fixed, released and evaluated.
+    Only the calls made on the object itself may matter."""
+    kind = 'LogLikelihood/shared-ingredients'
+
+    def __init__(self, chi, rng):
+        self.chi = chi
+        n_out, n_par = int(rng.integers(1, 3)), int(rng.integers(1, 4))
+        seed = int(rng.integers(1000))
+        ems_idx = [int(rng.integers(4)) for _ in range(n_out)]
+        times = [np.sort(rng.choice(np.arange(1, 20) * 0.25, int(rng.integers(1, 5)), replace=False))
+                 for _ in range(n_out)]
+        obs = [rng.uniform(0.5, 3.0, len(t)) for t in times]
+        self.ref = chi.LogLikelihood(toy.ToyModel(n_out, n_par, seed), [em_classes(chi)[i]() for i in ems_idx],
+                                     [list(o) for o in obs], [list(t) for t in times])
+        names = self.ref.get_parameter_names()
+        mech = toy.ToyModel(n_out, n_par, seed)
+        pre = []
+        if rng.random() < 0.6:
+            mech = chi.ReducedMechanisticModel(mech)
+            if n_par > 1 and rng.random() < 0.6:
+                n = names[int(rng.integers(n_par))]
+                v = float(rng.uniform(0.5, 1.5))
+                mech.fix_parameters({n: v})
+                pre.append((n, v))
+        ems = []
+        at = n_par
+        for i in ems_idx:
+            em = em_classes(chi)[i]()
+            k = em.n_parameters()
+            if rng.random() < 0.6:
+                em = chi.ReducedErrorModel(em)
+                # (with several outputs the likelihood prefixes the names with the output, also of a
+                #  parameter fixed beforehand: repaired finding C17-pre-reduced-error-model-names)
+                if rng.random() < 0.7:
+                    j = int(rng.integers(k))
+                    v = float(rng.uniform(0.2, 1.5))
+                    em.fix_parameters({em.get_parameter_names()[j]: v})
+                    pre.append((names[at + j], v))
+            ems.append(em)
+            at += k
+        self.pre_ops = [pre] if pre else []
+        self.mech, self.ems = mech, ems
+        self.obj = chi.LogLikelihood(mech, ems, [list(o) for o in obs], [list(t) for t in times])
+        self.sibling = chi.LogLikelihood(mech, ems, [list(o) for o in obs], [list(t) for t in times])
+        self.irng = np.random.default_rng(int(rng.integers(2 ** 31)))
+        self.interfere()
+
+    def interfere(self):
+        r = self.irng
+        names = self.ref.get_parameter_names()
+
+        def some():
+            d = {}
+            for j in r.choice(len(names), size=int(r.integers(1, len(names) + 1)), replace=False):
+                d[names[j]] = None if r.random() < 0.3 else self.draw(r, names[j])
+            return d
+        for _ in range(int(r.integers(1, 4))):
+            c = r.random()
+            with np.errstate(all='ignore'):
+                try:
+                    if c < 0.4:
+                        self.sibling.fix_parameters(some())
+                    elif c < 0.55 and isinstance(self.mech, self.chi.ReducedMechanisticModel):
+                        self.mech.fix_parameters(some())
+                    elif c < 0.8:
+                        for em in self.ems:
+                            if isinstance(em, self.chi.ReducedErrorModel):
+                                loc = em.get_error_model().get_parameter_names()
+                                em.fix_parameters({loc[int(r.integers(len(loc)))]:
+                                                   None if r.random() < 0.3 else float(r.uniform(0.2, 1.5))})
+                    else:
+                        x = r.uniform(0.5, 1.5, self.sibling.n_parameters())
+                        if len(x):
+                            self.sibling(x)
+                            self.sibling.evaluateS1(x)
+                except ValueError:
+                    pass        # what happens to the sibling is not the subject here
+
+    def fix(self, d):
+        self.obj.fix_parameters(d)
+        self.interfere()
+
+
 class PredAdapter(Adapter):
     kind = 'PredictiveModel'
 
@@ -386,7 +472,7 @@ def all_mech_fixed(names, net):
     return bool(mech) and all(n in net for n in mech)
 
 
-ADAPTERS = [ErrAdapter, MechAdapter, PopAdapter, LLAdapter, PredAdapter, PopPredAdapter]
+ADAPTERS = [ErrAdapter, MechAdapter, PopAdapter, LLAdapter, PredAdapter, PopPredAdapter, SharedLLAdapter]
 
 
 # ----------------------------------------------------------------------------------------------
@@ -498,11 +584,15 @@ def run_history(ctx, chi, A, rng, length, ops=None):
     names = ad.names()
     if ops is None:
         ops = gen_history(rng, names, ad, length)
+    # calls made before the object existed (a parameter fixed on an ingredient) head the history
+    pre = [list(d) for d in getattr(ad, 'pre_ops', [])]
     inp = {'object': ad.kind, 'names': names, 'history': [[[n, v] for n, v in d] for d in ops]}
-    shape = history_shape(ops)
+    if pre:
+        inp['fixed_on_the_ingredients_beforehand'] = [[[n, v] for n, v in d] for d in pre]
+    shape = history_shape(pre + ops)
     ctx.case(ad.kind + '/' + shape, nontrivial=(ad.kind.split('/')[0] + '/' + shape)
              if ('refix' in shape or 'release' in shape) else False, sample=inp)
-    compare(ctx, ad, [], rng, dict(inp, step=0))
+    compare(ctx, ad, pre, rng, dict(inp, step=0))
     for k in range(len(ops)):
         if hasattr(ad, 'rename') and rng.random() < 0.25:
             # the dimensions are renamed between two fix calls: all names change, positions stay; the
@@ -521,11 +611,11 @@ def run_history(ctx, chi, A, rng, length, ops=None):
         except Exception as e:  # noqa
             # a history whose step raises: #22 (fix_parameters while sensitivities are on and every
             # mechanistic parameter ends up fixed) or some other defect
-            is22 = all_mech_fixed(names, net_of(ops[:k + 1])) and 'None of the parameters' in str(e)
+            is22 = all_mech_fixed(names, net_of(pre + ops[:k + 1])) and 'None of the parameters' in str(e)
             ctx.spec(TAG22 if is22 else 'C08.fix_raises/' + ad.kind.split('/')[0], False,
                      dict(inp, step=k + 1), {'raised': repr(e)[:200]})
             return
-        compare(ctx, ad, ops[:k + 1], rng, dict(inp, step=k + 1))
+        compare(ctx, ad, pre + ops[:k + 1], rng, dict(inp, step=k + 1))
 
 
 def exhaustive(ctx, chi):
@@ -551,7 +641,7 @@ def exhaustive(ctx, chi):
 
 def run(ctx):
     chi = core.import_chi()
-    n = 250 if ctx.tier == 'quick' else 7000
+    n = 350 if ctx.tier == 'quick' else 8400
     for i in range(n):
         rng = ctx.sub_rng(i)
         A = ADAPTERS[i % len(ADAPTERS)]
